@@ -122,6 +122,7 @@ func (a *Analyzer) doCall(fr *frame, site ssa.Instruction, c *ssa.CallCommon, st
 			for k, v := range savedEnv {
 				env[k] = v
 			}
+			a.keepGhosts(r.st.Env, env)
 			r.st.Env = env
 			r.st.Defers = append([]*deferred(nil), savedDefers...)
 			v := a.postInline(fn, callArgs, r.val, r.st)
@@ -341,6 +342,16 @@ func resultUnknown(a *Analyzer, sig *types.Signature, st *State, desc string) Te
 }
 
 func (a *Analyzer) external(fr *frame, site ssa.Instruction, name string, sig *types.Signature, st *State, args []Term, fnv Term) []retState {
+	rs := a.external0(fr, site, name, sig, st, args, fnv)
+	if a.OnExternalResult != nil {
+		for _, r := range rs {
+			a.OnExternalResult(fr.fn, site, name, r.st, args, r.val)
+		}
+	}
+	return rs
+}
+
+func (a *Analyzer) external0(fr *frame, site ssa.Instruction, name string, sig *types.Signature, st *State, args []Term, fnv Term) []retState {
 	one := func(v Term) []retState { return []retState{{st, v}} }
 	if a.OnExternal != nil {
 		a.OnExternal(fr.fn, site, name, st, args)
@@ -658,6 +669,7 @@ func (a *Analyzer) callClosure(fr *frame, site ssa.Instruction, st *State, cl *C
 		for k, v := range savedEnv {
 			env[k] = v
 		}
+		a.keepGhosts(r.st.Env, env)
 		r.st.Env = env
 		r.st.Defers = append([]*deferred(nil), savedDefers...)
 		outs = append(outs, r.st)
@@ -830,6 +842,7 @@ func (a *Analyzer) invokeUnknown(fr *frame, site ssa.Instruction, c *ssa.CallCom
 			for k, v := range savedEnv {
 				env[k] = v
 			}
+			a.keepGhosts(r.st.Env, env)
 			r.st.Env = env
 			r.st.Defers = append([]*deferred(nil), savedDefers...)
 			bind(r.st, r.val)
@@ -893,4 +906,13 @@ func shortNames(xs []string) []string {
 		out[i] = x[strings.LastIndexAny(x, "./")+1:]
 	}
 	return out
+}
+
+// keepGhosts copies the callee's final ghost values into the restored caller environment.
+func (a *Analyzer) keepGhosts(callee, caller map[ssa.Value]Term) {
+	for _, g := range a.Ghosts {
+		if v, ok := callee[g]; ok {
+			caller[g] = v
+		}
+	}
 }
